@@ -645,8 +645,8 @@ fn check_word(word: &[u8], alpha: &[X], max_depth: usize, ctx: &mut Ctx) {
 fn main() {
     let run = Run::from_args("C09");
     let alpha: Vec<X> = vec![None, Some(-1.0), Some(0.0), Some(2.0)];
-    let max_len = run.pick(4, 5);
-    let max_depth = run.pick(4, 5);
+    let max_len = run.pick(4, 6);
+    let max_depth = run.pick(4, 6);
     if let Some(path) = &run.replay {
         let stored = load_replay(path).unwrap_or_else(|e| {
             eprintln!("MACHINERY-ERROR: {e}");
